@@ -15,6 +15,13 @@ import (
 	"github.com/nextmv-io/nextroute/schema"
 )
 
+// earliestTime is the epoch of the model, no time of the input can be before
+// it. maximumSeconds is the number of seconds of the longest duration the
+// model knows, 200 years.
+var earliestTime = time.Date(1970, 1, 1, 0, 0, 0, 0, time.UTC)
+
+const maximumSeconds = 24 * 365 * 200 * 3600
+
 // validate the input and return an error if invalid.
 func validate(input schema.Input, modelOptions Options) error {
 	allStopIDs := map[string]bool{}
@@ -406,6 +413,13 @@ func validateStop(idx int, stop schema.Stop, stopIDs map[string]bool) error {
 		}
 	}
 
+	if stop.TargetArrivalTime != nil && stop.TargetArrivalTime.Before(earliestTime) {
+		return nmerror.NewInputDataError(fmt.Errorf(
+			"stop `%s` target arrival time `%v` is before `%v`",
+			stop.ID, *stop.TargetArrivalTime, earliestTime,
+		))
+	}
+
 	if stop.MaxWait != nil {
 		maxWait := *stop.MaxWait
 		if maxWait < 0 {
@@ -544,6 +558,13 @@ func validateAlternateStop(idx int, stop schema.AlternateStop) error {
 		if err != nil {
 			return err
 		}
+	}
+
+	if stop.TargetArrivalTime != nil && stop.TargetArrivalTime.Before(earliestTime) {
+		return nmerror.NewInputDataError(fmt.Errorf(
+			"alternate stop `%s` target arrival time `%v` is before `%v`",
+			stop.ID, *stop.TargetArrivalTime, earliestTime,
+		))
 	}
 
 	if stop.MaxWait != nil {
@@ -842,6 +863,25 @@ func validateVehicles(input schema.Input, stopIDs map[string]bool) error {
 					speed,
 				))
 			}
+		}
+
+		if vehicle.StartTime != nil && vehicle.StartTime.Before(earliestTime) {
+			return nmerror.NewInputDataError(fmt.Errorf(
+				"vehicle `%s` start time `%v` is before `%v`",
+				vehicle.ID, *vehicle.StartTime, earliestTime,
+			))
+		}
+		if vehicle.EndTime != nil && vehicle.EndTime.Before(earliestTime) {
+			return nmerror.NewInputDataError(fmt.Errorf(
+				"vehicle `%s` end time `%v` is before `%v`",
+				vehicle.ID, *vehicle.EndTime, earliestTime,
+			))
+		}
+		if vehicle.MaxDuration != nil && *vehicle.MaxDuration > maximumSeconds {
+			return nmerror.NewInputDataError(fmt.Errorf(
+				"vehicle `%s` maximum duration %v seconds is larger than %v seconds",
+				vehicle.ID, *vehicle.MaxDuration, maximumSeconds,
+			))
 		}
 
 		if vehicle.StartTime != nil {
